@@ -208,6 +208,20 @@ class Interp:
                 return int(args[0])         # std only has From between integer types where it is lossless (bool -> 0 / 1)
             if fp in self.facts.hir:
                 return self.call_fn(fp, args)
+            if fp in ("core::mem::swap", "std::mem::swap") and len(e["args"]) == 2:
+                pa, pb = [H.unwrap(a) for a in e["args"]]
+                if H.is_k(pa, "ref") and H.is_k(pb, "ref"):
+                    va, vb = self.ev(pa["e"], env), self.ev(pb["e"], env)
+                    self.assign(pa["e"], vb, env)
+                    self.assign(pb["e"], va, env)
+                    return ("t", ())
+                raise H.Unsupported("mem::swap of non-place arguments")
+            if any(H.is_k(H.unwrap(a), "ref") and H.unwrap(a).get("mut") for a in e["args"]):
+                raise H.Unsupported("external call %s with a mutable reference (its effect is not modelled)" % fp)
+            if fp.endswith("default::Default::default") and not args:
+                impl = "<%s as core::default::Default>::default" % e.get("ty")
+                if impl in self.facts.hir:          # a local (possibly derived) Default impl, selected by the expression's type
+                    return self.call_fn(impl, [])
             return self.ext_call(fp, args)
         if k == "mcall":
             recv = self.ev(e["recv"], env)
